@@ -199,10 +199,22 @@ func (f *Func) redefineInputs(opts ...Arg) (reflect.Type, error) {
 
 		switch v := v.(type) {
 		case *valueVertex:
-			sf = append(sf, reflect.StructField{
+			field := reflect.StructField{
 				Name: strings.ToUpper(v.Name),
 				Type: v.Type,
-			})
+			}
+
+			// Two inputs may share a name (they differ in type or subtype).
+			// Struct fields can't, so later ones get a field name of their
+			// own and keep their value name through the tag.
+			for _, other := range sf {
+				if other.Name == field.Name {
+					field.Name = fmt.Sprintf("%s__%d", field.Name, len(sf))
+					field.Tag = reflect.StructTag(fmt.Sprintf(`argmapper:"%s"`, v.Name))
+					break
+				}
+			}
+			sf = append(sf, field)
 
 		case *typedArgVertex:
 			sf = append(sf, reflect.StructField{
